@@ -210,7 +210,15 @@ fn satisfies(tt: &TT, tok: &Tok, sig: Tri, key: bool) -> Tri {
     };
     match tt {
         TT::Op(_) | TT::Alias(_) => Tri::No,
-        TT::Data(d) => typed(if d == payload { Tri::Yes } else { Tri::No }),
+        // "exact data match only equal elements": a push of the same payload through a larger-than-necessary push opcode
+        // is a different script element (a template derived from it records that opcode), so it does not match
+        TT::Data(d) => {
+            if d == payload && minimal {
+                Tri::Yes
+            } else {
+                Tri::No
+            }
+        }
         TT::Any => Tri::Yes,
         TT::Len(c, n) => {
             if c.holds(payload.len(), *n) {
@@ -807,6 +815,8 @@ struct Crit {
     exact: Option<u64>,
     min: Option<u64>,
     max: Option<u64>,
+    /// which of the 24 permutations of the four setter calls builds the criteria (0 = template, exact, min, max)
+    order: usize,
 }
 
 impl Crit {
@@ -825,26 +835,49 @@ impl Crit {
         Some(self.exact.map_or(true, |e| v == e) && self.min.map_or(true, |m| v >= m) && self.max.map_or(true, |m| v <= m))
     }
     fn json(&self, text: &str) -> Value {
-        json!({"template": if self.tmpl { json!(text) } else { Value::Null }, "exact": self.exact, "min": self.min, "max": self.max})
+        json!({"template": if self.tmpl { json!(text) } else { Value::Null }, "exact": self.exact, "min": self.min, "max": self.max, "setter_call_order": self.order})
     }
     fn build(&self, t: &ScriptTemplate) -> MatchCriteria {
+        self.build_in_order(t, self.order)
+    }
+    /// The four setters called in the `order`-th of the 24 permutations (0 = template, exact, min, max).
+    fn build_in_order(&self, t: &ScriptTemplate, order: usize) -> MatchCriteria {
+        let mut items = vec![0u8, 1, 2, 3];
+        let mut perm = vec![];
+        let mut r = order % 24;
+        for k in (1..=4).rev() {
+            perm.push(items.remove(r % k));
+            r /= k;
+        }
         let mut c = MatchCriteria::new();
-        if self.tmpl {
-            c.set_script_template(t);
-        }
-        if let Some(v) = self.exact {
-            c.set_value(v);
-        }
-        if let Some(v) = self.min {
-            c.set_min(v);
-        }
-        if let Some(v) = self.max {
-            c.set_max(v);
+        for f in perm {
+            match f {
+                0 => {
+                    if self.tmpl {
+                        c.set_script_template(t);
+                    }
+                }
+                1 => {
+                    if let Some(v) = self.exact {
+                        c.set_value(v);
+                    }
+                }
+                2 => {
+                    if let Some(v) = self.min {
+                        c.set_min(v);
+                    }
+                }
+                _ => {
+                    if let Some(v) = self.max {
+                        c.set_max(v);
+                    }
+                }
+            }
         }
         c
     }
     fn single_fields(&self) -> Vec<(&'static str, Crit)> {
-        let none = Crit { tmpl: false, exact: None, min: None, max: None };
+        let none = Crit { tmpl: false, exact: None, min: None, max: None, order: 0 };
         let mut v = vec![];
         if self.tmpl {
             v.push(("template", Crit { tmpl: true, ..none }));
@@ -1060,7 +1093,7 @@ fn criteria_spaces(v: &mut Vec<Space>, side: Side, tier: Tier, ce: Arc<CritEnv>)
             let c = coords(case.idx, &[nval_dim, nscripts, 2, nv + 1, nv + 1, nv + 1]);
             let value = vals.get(c[0] as usize).copied();
             let opt = |k: u64| if k == 0 { None } else { Some(vals[k as usize - 1]) };
-            let crit = Crit { tmpl: c[2] == 1, exact: opt(c[3]), min: opt(c[4]), max: opt(c[5]) };
+            let crit = Crit { tmpl: c[2] == 1, exact: opt(c[3]), min: opt(c[4]), max: opt(c[5]), order: 0 };
             if side == Side::Outputs && value.is_none() {
                 return;
             }
@@ -1085,7 +1118,7 @@ fn criteria_spaces(v: &mut Vec<Space>, side: Side, tier: Tier, ce: Arc<CritEnv>)
             let ar = around(b);
             let (ke, kmin, kmax) = ((c[2] / 9) as usize, (c[2] / 3 % 3) as usize, (c[2] % 3) as usize);
             let p = c[1];
-            let crit = Crit { tmpl: p & 8 != 0, exact: if p & 4 != 0 { Some(ar[ke]) } else { None }, min: if p & 2 != 0 { Some(ar[kmin]) } else { None }, max: if p & 1 != 0 { Some(ar[kmax]) } else { None } };
+            let crit = Crit { tmpl: p & 8 != 0, exact: if p & 4 != 0 { Some(ar[ke]) } else { None }, min: if p & 2 != 0 { Some(ar[kmin]) } else { None }, max: if p & 1 != 0 { Some(ar[kmax]) } else { None }, order: 0 };
             let slots: Vec<(usize, Option<u64>)> = seqs
                 .get(c[3])
                 .iter()
@@ -1099,6 +1132,20 @@ fn criteria_spaces(v: &mut Vec<Space>, side: Side, tier: Tier, ce: Arc<CritEnv>)
                 acc.sample(case.idx, || json!({"space": format!("{}-selection", side.name()), "slots": slots.iter().map(|s| json!({"script_matches": s.0 == 0, "value": s.1})).collect::<Vec<_>>(), "criteria": crit.json(&ce.text)}));
             }
             eval_criteria(side, &slots, crit, &ce, acc, case);
+        }));
+    }
+    // (c) builder histories: the four setters called in every one of the 24 orders, every present/absent combination,
+    // exact / min / max each at b-1, b, b+1, one slot whose value is b-1, b or b+1 - the criteria mean the same whatever
+    // the order in which they were configured
+    {
+        let ce = ce.clone();
+        v.push(Space::new(&format!("{}-builder-orders", name), 24 * 16 * 27 * 3 * 2, move |case, acc| {
+            let c = coords(case.idx, &[24, 16, 27, 3, 2]);
+            let ar = around(1000);
+            let (ke, kmin, kmax) = ((c[2] / 9) as usize, (c[2] / 3 % 3) as usize, (c[2] % 3) as usize);
+            let p = c[1];
+            let crit = Crit { tmpl: p & 8 != 0, exact: if p & 4 != 0 { Some(ar[ke]) } else { None }, min: if p & 2 != 0 { Some(ar[kmin]) } else { None }, max: if p & 1 != 0 { Some(ar[kmax]) } else { None }, order: c[0] as usize };
+            eval_criteria(side, &[(c[4] as usize, Some(ar[c[3] as usize]))], crit, &ce, acc, case);
         }));
     }
 }
@@ -1412,7 +1459,7 @@ fn shape_spaces(v: &mut Vec<Space>, env: &Arc<c17::Env>, tier: Tier) {
                 if case.idx == 7 * np + 9 {
                     acc.sample(case.idx, || json!({"space": nm, "slots": pats[c[1] as usize].iter().map(|s| ["OP_1 OP_2", "typical signature + key", "shaped signature + key"][*s]).collect::<Vec<_>>(), "shaped_signature": sh[c[0] as usize].elem.label, "criteria_template": SIG_CRIT_TEMPLATE}));
                 }
-                eval_criteria(side, &slots, Crit { tmpl: true, exact: None, min: None, max: None }, ce, acc, case);
+                eval_criteria(side, &slots, Crit { tmpl: true, exact: None, min: None, max: None, order: 0 }, ce, acc, case);
             }));
         }
     }
